@@ -56,6 +56,8 @@ fn x_grid(thorough: bool) -> Vec<BigInt> {
     let mut out: Vec<BigInt> = v.iter().map(|s| fx::parse_dec(s, 34)).collect();
     out.sort();
     out.dedup();
+    // smallest magnitude first, so that the first witness of a defect is a small one
+    out.sort_by_key(|x| (x.abs(), x.is_negative()));
     out
 }
 
@@ -131,9 +133,11 @@ pub fn run(ctx: Ctx) -> ! {
         iterations: u64,
         nontrivial: bool,
     }
-    let outs: Vec<Option<Out>> = cases
+    type Viol = (String, String, Value);
+    let results: Vec<(Option<Out>, Vec<Viol>)> = cases
         .par_iter()
         .map(|c| {
+            let mut sink: Vec<Viol> = vec![];
             let t = truth(c);
             let xclass = if c.x.is_negative() { "x<0" } else { "x>=0" };
             let case = json!({"x_raw": c.x.to_string(), "x": fx::show(&c.x, 34), "bound": c.bound, "compare_raw": c.compare.to_string(), "compare": fx::show(&c.compare, 34), "compare_is": c.how, "max_n": c.max_n, "true_sign_of_compare_minus_exp": t});
@@ -142,8 +146,8 @@ pub fn run(ctx: Ctx) -> ! {
             let r = match catch(move || xd.exp_cmp(m, b, &cd)) {
                 Ok(r) => r,
                 Err(p) => {
-                    ctx.violation(p.site(), format!("exp_cmp panicked: {} at {}", p.message, p.location), case);
-                    return None;
+                    sink.push((p.site(), format!("exp_cmp panicked: {} at {}", p.message, p.location), case));
+                    return (None, sink);
                 }
             };
             let est = match r.estimation {
@@ -153,7 +157,7 @@ pub fn run(ctx: Ctx) -> ! {
             };
             // clause 1: a conclusion is never wrong
             if (est == "GT" && t <= 0) || (est == "LT" && t >= 0) {
-                ctx.violation(
+                sink.push((
                     format!("exp_cmp:wrong-conclusion:{xclass}"),
                     format!(
                         "exp_cmp(x={}, max_n={}, bound={}, compare={}) answered {est} after {} iterations, but compare {} e^x",
@@ -169,7 +173,7 @@ pub fn run(ctx: Ctx) -> ! {
                         }
                     ),
                     case.clone(),
-                );
+                ));
             }
             // clause 2: approximation and iteration count match the reference
             let want = f.exp_cmp(c.max_n, &c.x, c.bound, &c.compare);
@@ -188,7 +192,7 @@ pub fn run(ctx: Ctx) -> ! {
                     "estimation"
                 };
                 let got_a = raw_of(&r.approx).map(|v| fx::show(&v, 34)).unwrap_or_else(|e| e);
-                ctx.violation(
+                sink.push((
                     format!("exp_cmp:ref-mismatch:{which}:{xclass}"),
                     format!(
                         "exp_cmp(x={}, max_n={}, bound={}, compare={} [{}]) = ({est}, {} iterations, approx {got_a}); reference algorithm gives ({west}, {} iterations, approx {})",
@@ -202,11 +206,18 @@ pub fn run(ctx: Ctx) -> ! {
                         fx::show(&want.approx, 34)
                     ),
                     case,
-                );
+                ));
             }
-            Some(Out { est, truth: t, iterations: r.iterations, nontrivial: r.iterations >= 1 })
+            (Some(Out { est, truth: t, iterations: r.iterations, nontrivial: r.iterations >= 1 }), sink)
         })
         .collect();
+    let mut outs: Vec<Option<Out>> = Vec::with_capacity(results.len());
+    for (o, sink) in results {
+        outs.push(o);
+        for (fp, what, case) in sink {
+            ctx.violation(fp, what, case);
+        }
+    }
 
     let mut outcome_hist: BTreeMap<String, u64> = BTreeMap::new();
     let mut distinct: BTreeSet<(usize, bool)> = BTreeSet::new();
